@@ -25,7 +25,7 @@ TRUSTED = ['TLC', 'SphereLattice.tla', 'GeodOverloads.tla', 'drv_geod.cpp (quant
 
 
 def run(ctx):
-    geod_common.run(ctx, 'C01', ['dir', 'ell'], [('dl', 20000, 1000000), ('dx', 5000, 200000)])
+    geod_common.run(ctx, 'C01', ['dir', 'ell'], [('dl', 20000, 600000), ('dx', 5000, 100000)])
     return ctx.finish(RULE, TRUSTED)
 
 
